@@ -7,14 +7,14 @@ transcribes (split at the first ':', element.nsmap.get(prefix), the
 "{%s}%s" class key, interface.classes.get, ValidationError when either lookup
 fails) and turns the *decision* -- what replaces ``cls`` -- into a Gallina table
 
-    xsi_target : same -> arr -> subof -> samename -> XReject | XDeclared | XNew
+    xsi_target : same -> arr -> subof -> samename -> cplx -> XReject | XDeclared | XNew
 
-over the four tests the code makes (see C04/Guard.v).  Two shapes are accepted:
+over the five tests the code makes (see C04/Guard.v).  Two shapes are accepted:
 
   * ``cls = newclass``                                   (no guard: always XNew)
   * ``cls = self._get_xsi_target(cls, newclass, xsi_type)`` with the body of
     ``_get_xsi_target`` made of ``if``/``raise ValidationError``/``return cls``/
-    ``return newclass`` over exactly those four tests.
+    ``return newclass`` over exactly those five tests.
 
 Anything else raises TranslateError (fail closed).
 """
@@ -148,6 +148,7 @@ LEAVES = {
     _expr('sub is sup'): 'same',
     _expr('issubclass(sup, Array)'): 'arr',
     _expr('issubclass(sub, sup)'): 'subof',
+    _expr('issubclass(sup, ComplexModelBase)'): 'cplx',
     _expr('(newclass.get_namespace(), newclass.get_type_name()) == (cls.get_namespace(), cls.get_type_name())'): 'samename',
     _expr('(newclass.get_namespace(), newclass.get_type_name()) != (cls.get_namespace(), cls.get_type_name())'): '(negb samename)',
     _expr('(cls.get_namespace(), cls.get_type_name()) == (newclass.get_namespace(), newclass.get_type_name())'): 'samename',
@@ -228,5 +229,5 @@ def generate(repo):
             '(** does from_element pass the registered class through _get_xsi_target? *)\n'
             'Definition xsi_guarded : bool := %s.\n\n'
             '(** what replaces [cls] once interface.classes returned a class for the xsi:type *)\n'
-            'Definition xsi_target : xsi_table := fun same arr subof samename =>\n  %s.\n' % (SRC, guarded, table))
+            'Definition xsi_target : xsi_table := fun same arr subof samename cplx =>\n  %s.\n' % (SRC, guarded, table))
     return {'XsiGuard.v': text}
